@@ -153,3 +153,35 @@ Example C10_witnesses :
   (total_on nat_lt w10_ids_sorted /\ NoDup w10_ids_sorted /\ is_sorted_nat w10_ids_sorted = true) /\
   (good_prefix w10_p /\ Forall in_range w10_ks /\ NoDup w10_ks /\ in_range w10_j /\ in_range w10_k).
 Proof. exact C10_witnesses_all. Qed.
+
+(* Clean examines files independently of one another: what a used file holds after the run - and whether it is written at all -
+   is determined by its own entries, its own part of the registry, the skip list and the mode; no other file, and no registry
+   entry of another file, has any influence (seeded changes C07-P, C09-P, C10-P are all violations of this). The per-state
+   hypotheses are met by the states of C07_run_addressed_entry_survives_witness (Proofs/WitnessesP.v); a machine-checked PAIR of
+   different states (the other file ending in an unterminated entry) was drafted but its vm_compute did not finish in time:
+   the instance s' = s is the only one checked, so read this theorem with that caveat (DESIGN, session 6). *)
+From Snaps Require Import Proofs.CleanFilesP Proofs.CleanRunP Proofs.CleanIndepP.
+Theorem C10_files_independent : forall s s' sort_opt count p es,
+  NoDup (map fst (s_fs s)) -> NoDup (map fst (s_fs s')) ->
+  In p (fr_used (run_files s count)) -> In p (fr_used (run_files s' count)) ->
+  alookup p (s_fs s) = Some (render (map to_entry es)) ->
+  alookup p (s_fs s') = Some (render (map to_entry es)) ->
+  Forall centry_ok es -> NoDup (map fst es) ->
+  s_env s = s_env s' -> s_skipped s = s_skipped s' ->
+  registered_tests (s_cleanup s) p count = registered_tests (s_cleanup s') p count ->
+  alookup p (s_fs (fst (clean_run s sort_opt count))) = alookup p (s_fs (fst (clean_run s' sort_opt count))).
+Proof. exact clean_file_independent. Qed.
+Print Assumptions C10_files_independent.
+
+Theorem C10_files_written_independent : forall s s' sort_opt count p es,
+  NoDup (map fst (s_fs s)) -> NoDup (map fst (s_fs s')) ->
+  In p (fr_used (run_files s count)) -> In p (fr_used (run_files s' count)) ->
+  alookup p (s_fs s) = Some (render (map to_entry es)) ->
+  alookup p (s_fs s') = Some (render (map to_entry es)) ->
+  Forall centry_ok es -> NoDup (map fst es) ->
+  s_env s = s_env s' -> s_skipped s = s_skipped s' ->
+  registered_tests (s_cleanup s) p count = registered_tests (s_cleanup s') p count ->
+  (In (WRewrite, p) (cr_writes (snd (clean_run s sort_opt count))) <->
+   In (WRewrite, p) (cr_writes (snd (clean_run s' sort_opt count)))).
+Proof. exact clean_file_written_independent. Qed.
+Print Assumptions C10_files_written_independent.
